@@ -274,7 +274,74 @@ func scalingFamily(kind string, n int) string {
 	return ""
 }
 
+// typedPrefix cuts one line of a journal where somebody is still typing it (the rest of the
+// line is not there yet; the lines below may or may not be), optionally damages the typed part
+// at byte level (lone lead bytes, lone continuation bytes, truncated sequences, NUL), and
+// returns the text with the cursor positions around the end of that line: every feature that
+// looks at "the text before the cursor" is asked exactly there.
+func typedPrefix(c *Ctx) (string, []int) {
+	r := c.R
+	lines := strings.Split(genJournal(r, GOpts{MaxEntries: 3, Deny: map[string]bool{"crlf": true}}).Text, "\n")
+	var cand []int
+	for i, l := range lines {
+		if l != "" {
+			cand = append(cand, i)
+		}
+	}
+	if len(cand) == 0 {
+		return "2024-01-01 ", []int{0, 11}
+	}
+	li := cand[r.IntN(len(cand))]
+	line := []rune(lines[li])
+	k := r.IntN(len(line) + 1)
+	if r.IntN(3) == 0 {
+		k = len(line)
+	}
+	typed := string(line[:k])
+	switch r.IntN(6) {
+	case 0:
+		typed += " "
+	case 1:
+		typed += pick(r, []string{" * ", " ! ", "  ", " (", " [", ":", " ; ", " @ ", " = ", " -", "\t"})
+	}
+	if r.IntN(2) == 0 {
+		b := []byte(typed)
+		for n := 1 + r.IntN(2); n > 0; n-- {
+			bad := []byte(pick(r, []string{"\xff", "\xc3", "\x80", "\xf0\x9f", "\xe2\x82", "\x00", "\xed\xa0\x80", "\xfe", "\xc0\xaf"}))
+			p := r.IntN(len(b) + 1)
+			b = append(b[:p], append(bad, b[p:]...)...)
+		}
+		typed = string(b)
+		c.Count("typed.invalid-utf8")
+	}
+	out := append([]string{}, lines[:li]...)
+	out = append(out, typed)
+	if r.IntN(2) == 0 {
+		out = append(out, lines[li+1:]...)
+	}
+	text := strings.Join(out, "\n")
+	// positions around the end of the typed line, in UTF-16 units as a client counts them and in
+	// bytes and runes as well (a client of a damaged document may count anything)
+	ends := map[int]bool{0: true, utf16Len(typed): true, len(typed): true, len([]rune(typed)): true}
+	var pos []int
+	for e := range ends {
+		for d := -2; d <= 2; d++ {
+			if e+d >= 0 {
+				pos = append(pos, li, e+d)
+			}
+		}
+	}
+	return text, pos
+}
+
 func genC06Handlers(c *Ctx) {
+	// text before the cursor, as typed: in-process (the handlers run in the calling goroutine,
+	// a panic is caught by the guard)
+	for i := 0; i < c.N(250, 6000); i++ {
+		text, pos := typedPrefix(c)
+		c.Count("typed")
+		c.Emit("c06.request", c06Request(c, text, pos))
+	}
 	corpus := seedCorpus()
 	for i := 0; i < 40; i++ {
 		corpus = append(corpus, genJournal(c.R, GOpts{MaxEntries: 6}).Text)
